@@ -147,16 +147,31 @@ def curve_hash(pub):
             'BRAINPOOLP384r1': 'sha384', 'BRAINPOOLP512r1': 'sha512'}.get(cn)
 
 
+_CERT_FP = {}
+
+
+def chain_ids(chain):
+    """ids of ALL certificates of a recorded chain, in order"""
+    if chain is None or not isinstance(chain, X509CertChain) or chain.getNumCerts() == 0:
+        return None
+    if not _CERT_FP:
+        for n in CREDS:
+            _CERT_FP[loop.creds(n)[0].x509List[0].getFingerprint()] = CRED_ID[n]
+    return [_CERT_FP.get(x.getFingerprint(), -1) for x in chain.x509List]
+
+
 def ident_of(conn):
     s = conn.session
     if s is None:
-        return {'server': None, 'client': None, 'srp': None, 'dc': False, 'resumable': None}
+        return {'server': None, 'client': None, 'srp': None, 'dc': False, 'resumable': None,
+                'server_ids': None, 'client_ids': None}
     srp = s.srpUsername
     if isinstance(srp, (bytes, bytearray)):
         srp = bytes(srp).decode('latin1')
     return {'server': fp_id(s.serverCertChain), 'client': fp_id(s.clientCertChain),
             'srp': srp or None, 'dc': getattr(s, 'delegated_credential', None) is not None,
-            'resumable': bool(s.resumable)}
+            'resumable': bool(s.resumable), 'server_ids': chain_ids(s.serverCertChain),
+            'client_ids': chain_ids(s.clientCertChain)}
 
 
 def base_model(flow, ver):
@@ -798,7 +813,8 @@ DC_KEYS = {'ed25519': ('serverDelCredEd25519Key.pem', 'serverDelCredEd25519Pub.p
            'rsapss': ('serverDelCredRSAPSSKey.pem', 'serverDelCredRSAPSSPub.pem', (8, 9), 102),
            'p256': ('serverDelCredSECP256r1Key.pem', 'serverDelCredSECP256r1Pub.pem', (4, 3), 103),
            'p384': ('serverDelCredSECP384r1Key.pem', 'serverDelCredSECP384r1Pub.pem', (5, 3), 104)}
-CERT_SCHEME = {'rsapss': (8, 9), 'ecdsa': (4, 3), 'ed25519': (8, 7), 'bp256': (8, 26)}
+CERT_SCHEME = {'rsapss': (8, 9), 'ecdsa': (4, 3), 'ed25519': (8, 7), 'bp256': (8, 26), 'rsa': (8, 4), 'rsa-b': (8, 4),
+               'ecdsa-b': (4, 3)}
 
 
 def _load_dc(which):
@@ -844,13 +860,26 @@ def site_dc(case, rng):
     r = Run(case, rng)
     p = r.p
     chain, ckey = loop.creds(name)
+    second = case.get('chain2')
+    ee_chain = chain
+    if second:                                   # certificate_list = [end-entity `name`, unrelated `second`]
+        chain = X509CertChain([chain.x509List[0], loop.creds(second)[0].x509List[0]])
     dkey, dpub, dalg, dkid = _load_dc(which)
     calg = CERT_SCHEME[name]
+    issuer_cert_bytes = ee_chain.x509List[0].bytes
+    if how in ('chain2-dc-by-last', 'chain2-dc-by-last-over-ee'):
+        # the attacker holds only the key of the LAST certificate and issues the credential with it
+        ckey = loop.creds(second)[1]
+        calg = CERT_SCHEME[second]
+        if how == 'chain2-dc-by-last':
+            issuer_cert_bytes = loop.creds(second)[0].x509List[0].bytes
     valid_time = 7 * 24 * 3600
     cred_bytes = Credential.marshal(valid_time, dalg, dpub)
     cred = Credential(valid_time=valid_time, dc_cert_verify_algorithm=dalg, subject_public_key_info=dpub, bytes=cred_bytes)
-    cert_bytes = chain.x509List[0].bytes
-    tbs = b' ' * 64 + b'TLS, server delegated credentials' + b'\x00' + bytes(cert_bytes) + bytes(cred_bytes) + bytes(calg)
+    cert_bytes = ee_chain.x509List[0].bytes
+    tbs = b' ' * 64 + b'TLS, server delegated credentials' + b'\x00' + bytes(issuer_cert_bytes) + bytes(cred_bytes) + bytes(calg)
+    # what RFC 9345 4.1.3 says must have been signed: the END-ENTITY certificate (entry 0)
+    tbs_ee = b' ' * 64 + b'TLS, server delegated credentials' + b'\x00' + bytes(cert_bytes) + bytes(cred_bytes) + bytes(calg)
     signer = P.other_key(name) if how == 'dc-other-key' else ckey
     dsig = bytearray(scheme_sign(signer, calg, bytearray(tbs)))
     if how == 'dc-flip':
@@ -866,7 +895,15 @@ def site_dc(case, rng):
     c2 = dict(case)
     c2['how'] = {'cv-flip': 'flip', 'cv-empty': 'empty'}.get(how, 'none')
     r.case = c2
-    r.send_hook(p.server, 'cv')
+    move_ext = None
+    if how == 'dc-on-entry1':                    # the credential extension travels on a non-end-entity entry
+        def move_ext(mm):
+            if isinstance(mm, Certificate) and len(mm.certificate_list) > 1:
+                e0, e1 = mm.certificate_list[0], mm.certificate_list[1]
+                e1.extensions = list(e1.extensions or []) + list(e0.extensions or [])
+                e0.extensions = []
+            return mm
+    r.send_hook(p.server, 'cv', extra=move_ext)
     forced = None
     if how == 'dc-alg-forced':         # the server believes the client offered the credential's algorithm
         def forced(mm):
@@ -881,7 +918,8 @@ def site_dc(case, rng):
         dc_offer = [x for x in dc_offer if x != dalg] or [(8, 9)]
     cst = vset(ver, dc_sig_algs=dc_offer, **vs)
     co, so = p.handshake(client_kw=dict(settings=cst),
-                         server_kw=dict(certChain=chain, privateKey=None, dc_key=cv_key, del_cred=del_cred, settings=vset(ver)))
+                         server_kw=dict(certChain=chain, privateKey=None, dc_key=cv_key, del_cred=del_cred,
+                                        settings=vset(ver, **({'certificate_compression_send': []} if move_ext else {}))))
     m = base_model(3, ver)
     suite = r.cap['suite']
     prf = 'sha384' if suite in CipherSuite.sha384PrfSuites else 'sha256'
@@ -891,11 +929,16 @@ def site_dc(case, rng):
          'alg': calg, 'sig': [7] if dsig else []}
     cm = certmsg(name, dcs=[d] if how != 'dc-alg-not-offered' else [])
     cm['cert'] = bytes(cert_bytes)
+    if second:
+        sec_bytes = bytes(loop.creds(second)[0].x509List[0].bytes)
+        on1 = how == 'dc-on-entry1'
+        cm['entries'] = [{'id': CRED_ID[name], 'cert': bytes(cert_bytes), 'key': CRED_ID[name], 'dc': [] if on1 else [d]},
+                         {'id': CRED_ID[second], 'cert': sec_bytes, 'key': CRED_ID[second], 'dc': [d] if on1 else []}]
     m['cert'] = cm
     m['offered'] = r.cap.get('offered') or []
     m['dc_offered'] = r.cap.get('dc_offered') or []
     pub = chain.getEndEntityPublicKey()
-    m['a_sig'].append((CRED_ID[name], tbs, scheme_verify(pub, calg, tbs, dsig)))
+    m['a_sig'].append((CRED_ID[name], tbs_ee, scheme_verify(pub, calg, tbs_ee, dsig)))
     if r.cap['cv'] is not None:
         scheme, sig, transcript = r.cap['cv']
         m['cv'] = (tuple(scheme), [7])
@@ -912,7 +955,7 @@ def site_dc(case, rng):
             ans = P.pubkey_verify(vpub, ver, tuple(scheme), bytearray(vb), sig, kt)
             m['a_sig'].append((dkid if tuple(scheme) == tuple(dalg) else CRED_ID[name], vb, ans))
     m['a_fin'].append((2, [11], True))
-    honest = how == 'honest'
+    honest = how in ('honest', 'chain2-honest')
     o = finish(case, p, 'client', co, so, m, honest, CRED_ID[name])
     o['how'] = how
     o['dc_expected'] = honest
@@ -954,6 +997,11 @@ def extra_cases(quick=False):
         for which in whiches:
             for how in ['honest', 'dc-flip', 'dc-other-key', 'dc-empty', 'cv-flip', 'cv-other-msg', 'cv-empty', 'dc-alg-not-offered', 'dc-alg-forced']:
                 out.append(dict(runner='dc', site='dc', ver=(3, 4), key=key, dc=which, how=how))
+    # multi-certificate chains: the delegation must be by the END-ENTITY key (entry 0), whatever follows it
+    for name, second in [('rsa', 'rsa-b'), ('ecdsa', 'ecdsa-b'), ('ed25519', 'rsa-b'), ('rsapss', 'ecdsa-b')]:
+        for which in (['ed25519'] if quick else ['ed25519', 'p256', 'rsapss']):
+            for how in ['chain2-honest', 'chain2-dc-by-last', 'chain2-dc-by-last-over-ee', 'dc-on-entry1']:
+                out.append(dict(runner='dc', site='dc-chain', ver=(3, 4), key=name, chain2=second, dc=which, how=how))
     return out
 
 
